@@ -1080,10 +1080,23 @@ def eval_tracks(d):
     return ev
 
 
+_SIGNED = {"u8": "i16", "u16": "i32", "u32": "i64", "u64": "i64"}
+_TIME_KEYS = ("note_on", "note_off", "sound_off")
+
+
+def _time_kind(kind):
+    """In the documented-dictionary histories a note may be left INVERTED (note_on > note_off after `note[key] = v`, a
+    malformed appended dictionary: the property says nothing about the values of such a note).  A difference of two
+    unsigned numpy numbers does not go negative there, it wraps around (np.uint8(0) - np.uint16(6) = 65530), which
+    the exact-rational model does not mirror: found by the thorough tier (seed 11) as a lone model/implementation
+    disagreement.  Times of these histories are therefore typed with the signed type of the next width."""
+    return _SIGNED.get(kind, kind)
+
+
 def _raw_dict(r, tick=None):
     """the note dictionary of a description with its numbers in the types the description names"""
     ty = r.get("_ty") or {}
-    return {k: _num(v, ty.get(k), tick if k in ("note_on", "note_off", "sound_off") else None) if k in ty else v
+    return {k: (_num(v, _time_kind(ty.get(k)), tick) if k in _TIME_KEYS else _num(v, ty.get(k), None)) if k in ty else v
             for k, v in r.items() if k != "_ty"}
 
 
@@ -1180,7 +1193,7 @@ def eval_hist(d):
                 pp.sustain_pedal_threshold = _thr(d, oi + 1, o[1])
                 judged += 1 if _judge_state(ev, pp, controls, o[1], "assignment after %d appended notes" % appended, contra) else 0
             elif o[0] == "S":
-                pp.notes[o[1]][o[2]] = _num(o[3], o[4], (mpq, ppq) if o[2] in ("note_on", "note_off", "sound_off") else None) \
+                pp.notes[o[1]][o[2]] = (_num(o[3], _time_kind(o[4]), (mpq, ppq)) if o[2] in _TIME_KEYS else _num(o[3], o[4], None)) \
                     if len(o) > 4 else o[3]
                 if o[2] == "pitch":
                     contra[o[1]] = False
